@@ -3,8 +3,17 @@ from vf.props import C03
 
 ASSUMPTIONS = C03.ASSUMPTIONS + [
     "C05 shares the naming/tokenizer kernels of C03 (they are the reader's half of that round trip)",
+    "E1 step lemma: EdifParser.multibit_add_cable from an existing array cable of width 1..3 (symbolic base index >= 0, symbolic pin "
+    "attachment) and an incoming one-wire cable with symbolic bit index in [base-3, base+width+2]: afterwards bit i is at position "
+    "i - base', every earlier bit keeps its absolute index and pins, missing bits are present and empty; any arrival order follows by "
+    "induction; stubs: separate_name_and_index (decided by the E2 kernels) and definition.get_cables (C10/C13 contract); a second net "
+    "for the bus's current lowest bit (a duplicate) is outside",
 ]
 
 
 def jobs(tier):
-    return C03.jobs(tier, "C05")
+    out = C03.jobs(tier, "C05")
+    for w in (1, 2, 3):
+        out.append(dict(name="C05/multibit_add_cable{width=%d}" % w, engine="E1/symheap", module="vf.e1.edif_jobs",
+                        func="multibit_job", timeout=1500, args=dict(width=w, tier=tier)))
+    return out
